@@ -48,7 +48,7 @@ def gen_cases(ctx):
         for i, (mode, f, c) in enumerate(grid):
             if i % ctx.nshards != ctx.shard:
                 continue
-            yield dict(mode=mode, fn=f, cls=c, round=rnd, okind=rng.choice(["tensor", "scalar", "operator", "tensor"]), rseed=rng.randrange(1 << 30))
+            yield dict(mode=mode, fn=f, cls=c, round=rnd, okind=rng.choice(["tensor", "scalar", "operator", "tensor", "bconst"]), rseed=rng.randrange(1 << 30))
         rnd += 1
 
 
@@ -98,6 +98,8 @@ def run_case(case, ctx):
     n = rng.choice([2, 3, 4])
     m = n if kind != "rect" else rng.choice([2, 3, 5])
     batch = rng.choice([[], [], [2]])
+    if case["okind"] == "bconst":
+        batch = rng.choice([[2], [2, 2], [3, 2], [3, 1]])
     if fn in ("prod",):
         batch = [2]
     dtype = rng.choice(["f64", "f64", "f32"])
@@ -211,7 +213,15 @@ def run_case(case, ctx):
         return
 
     # second operand
-    if okind == "scalar":
+    if okind == "bconst" and not (fn in ("mul", "div", "true_divide", "*") and batch):
+        okind = "tensor"
+    if okind == "bconst":
+        # a tensor of per-matrix constants (*b, 1, 1) whose batch shape broadcasts against the operator's (full, leading dimension
+        # only, trailing dimension only)
+        bc = rng.choice([list(batch), [batch[0]] + [1] * (len(batch) - 1), [1] * (len(batch) - 1) + [batch[-1]]])
+        t = 0.5 + randn(*bc, 1, 1).abs()
+        other_lib = other_dense = t
+    elif okind == "scalar":
         other_lib = other_dense = 1.5
     elif okind == "operator":
         from linear_operator.operators import DenseLinearOperator
@@ -228,6 +238,8 @@ def run_case(case, ctx):
 
     if mode == "binop":
         lhs = randn(*dense.shape) if fn != "@" else (randn(n) if case["rseed"] % 3 == 0 else randn(*batch, 2, n))  # 1-D left operands too
+        if okind == "bconst" and fn == "*":
+            lhs = other_dense  # constants * op
         table = {"+": (lambda: lhs + op, lambda: lhs + dense), "-": (lambda: lhs - op, lambda: lhs - dense),
                  "*": (lambda: lhs * op, lambda: lhs * dense), "@": (lambda: lhs @ op, lambda: lhs @ dense)}
         judge("tensor" + fn + "op", *table[fn])
@@ -237,7 +249,7 @@ def run_case(case, ctx):
             return
         table2 = {"+": (lambda: op + rhs_l, lambda: dense + rhs_d), "-": (lambda: op - rhs_l, lambda: dense - rhs_d),
                   "*": (lambda: op * rhs_l, lambda: dense * rhs_d), "@": (lambda: op @ rhs_l, lambda: dense @ rhs_d)}
-        if not (fn == "*" and okind != "scalar" and spec["kind"] not in ("pd",)):
+        if not (fn == "*" and okind not in ("scalar", "bconst") and spec["kind"] not in ("pd",)):
             judge("op" + fn + "x", *table2[fn], key_extra="|left")
         return
 
@@ -296,11 +308,11 @@ def run_case(case, ctx):
             if off.abs().max() > 0:
                 ctx.fail("torch." + fn, "value", detail="factor not triangular in the requested orientation", **dict(kw, tags=set(tags) | {"orientation"}))
     elif fn in ("add", "sub", "mul", "div"):
-        if fn == "div" and okind != "scalar":
+        if fn == "div" and okind not in ("scalar", "bconst"):
             other_lib = other_dense = torch.tensor(2.0, dtype=dt)
-        if fn == "mul" and okind != "scalar" and spec["kind"] != "pd":
+        if fn == "mul" and okind not in ("scalar", "bconst") and spec["kind"] != "pd":
             other_lib = other_dense = torch.tensor(0.7, dtype=dt)
-        if fn == "mul" and okind != "scalar" and spec["kind"] == "pd":
+        if fn == "mul" and okind not in ("scalar", "bconst") and spec["kind"] == "pd":
             fac = randn(*dense.shape[:-2], n, n + 1)
             pdm = fac @ fac.mT / n + torch.eye(n, dtype=dt)
             from linear_operator.operators import DenseLinearOperator
